@@ -258,6 +258,7 @@ def run(R, tier):
     no_mutation(R, rng, tier)
     same_name_registered(R, rng, tier)
     two_algebras(R, rng, tier)
+    re_registration(R, rng, tier)
     symbolic_calls(R, rng, tier)
     large_algebra_histories(R, rng, tier)
     # ---- one thread held inside code generation while another makes the same call ----
@@ -475,6 +476,41 @@ def no_mutation(R, rng, tier):
             keep(f'the result of `r {aname} ..` on {r_desc}', r)
         if not ok:
             continue
+
+
+def re_registration(R, rng, tier):
+    """One function object registered twice on one algebra (numerically, then with symbolic=True, or the other way round; a failing
+    numeric attempt in between): each registered version returns what that kind of registration returns on a fresh algebra."""
+    def f_plain(a, b):
+        return a * b + (a | b)
+    def f_grades(a, b):
+        return (a * b).grade(*(a * b).grades[:1]) + b        # .grades of an intermediate result exists only on real multivectors
+    for it in range(6 if tier == 'quick' else 60):
+        d = rng.choice((2, 3))
+        spec = {'sig': [rng.choice((1, 1, -1)) for _ in range(d)]}
+        alg = algs.make_impl(spec)
+        canon = list(alg.canon2bin.values())
+        ka, kb = rng.sample(canon, 2), rng.sample(canon, 2)
+        va, vb = [float(rng.randint(1, 5)) for _ in ka], [float(rng.randint(1, 5)) for _ in kb]
+        f = (f_plain, f_grades)[it % 2]
+        order = [(False, True), (True, False)][(it // 2) % 2]
+        def outcome(A, symbolic):
+            try:
+                r = A.register(f, symbolic=symbolic)(oc.make_mv(A, ka, va), oc.make_mv(A, kb, vb))
+                return ('ok', values_of(r))
+            except Exception as e:  # noqa
+                return ('err', type(e).__name__)
+        R.count('history=re-registration'); R.case(('re-registration', it, f.__name__, order), True)
+        for symbolic in order:
+            got = outcome(alg, symbolic)
+            ref = outcome(algs.make_impl(spec), symbolic)
+            ok = got[0] == ref[0] and (same(got[1], ref[1]) if got[0] == 'ok' else got[1] == ref[1])
+            if not ok:
+                R.violation({'clause': 'history', 'via': 're-registration'},
+                            {'algebra': spec, 'function': f.__name__, 'order': list(order), 'keys': [ka, kb], 'values': [va, vb], 'got': str(got), 'fresh': str(ref)},
+                            f'{f.__name__} registered with symbolic={symbolic} after it had been registered with symbolic={not symbolic} on the same algebra '
+                            f'Algebra({algs.describe(spec)}) returns {got}, on a fresh algebra {ref} (a = {list(zip(ka, va))}, b = {list(zip(kb, vb))})'[:800])
+                break
 
 
 def two_algebras(R, rng, tier):
